@@ -269,6 +269,13 @@ def _store(eng, st, recv_expr, newval, old):
             raise OutOfSubset("mutation through non-record")
         holder.x[recv_expr.attr] = newval
         return
+    if isinstance(recv_expr, ast.Subscript) and isinstance(recv_expr.value, ast.Name) and recv_expr.value.id in st.vars:
+        d = st.vars[recv_expr.value.id]
+        if d.t[0] != "dict":
+            raise OutOfSubset("mutation through subscript of non-dict")
+        key = eng.ev1(recv_expr.slice, st)
+        st.vars[recv_expr.value.id] = eng.dict_store(d, key, newval)
+        return
     raise OutOfSubset("mutation of a temporary")
 
 
